@@ -1,0 +1,78 @@
+//go:build verif
+
+package pool
+
+import (
+	"sync"
+)
+
+// Lifecycle tracker for the verification harness (/verif). Compiled only with
+// -tags verif. The harness installs a tracker with VerifSetTracker; without one
+// the hooks do nothing.
+
+// VerifTracker receives the pool lifecycle events.
+type VerifTracker interface {
+	// Released is called at the start of Pool.ReleaseMessage (before Reset).
+	Released(p *Pool, m *Message)
+	// Recycled is called at the end of Pool.ReleaseMessage, after Reset, when the message was put back.
+	Recycled(p *Pool, m *Message)
+	// Reacquired is called when Pool.AcquireMessage hands out a recycled message.
+	Reacquired(p *Pool, m *Message)
+}
+
+var (
+	verifTrackerMu sync.RWMutex
+	verifTracker   VerifTracker
+)
+
+// VerifSetTracker installs (or, with nil, removes) the tracker.
+func VerifSetTracker(t VerifTracker) {
+	verifTrackerMu.Lock()
+	verifTracker = t
+	verifTrackerMu.Unlock()
+}
+
+func verifGetTracker() VerifTracker {
+	verifTrackerMu.RLock()
+	t := verifTracker
+	verifTrackerMu.RUnlock()
+	return t
+}
+
+func verifOnRelease(p *Pool, m *Message) {
+	if t := verifGetTracker(); t != nil {
+		t.Released(p, m)
+	}
+}
+
+func verifOnRecycle(p *Pool, m *Message) {
+	if t := verifGetTracker(); t != nil {
+		t.Recycled(p, m)
+	}
+}
+
+func verifOnReacquire(p *Pool, m *Message) {
+	if t := verifGetTracker(); t != nil {
+		t.Reacquired(p, m)
+	}
+}
+
+// VerifPoison overwrites the recycled message's header fields with a recognisable pattern;
+// VerifPoisoned reports whether the pattern is still intact (nobody wrote to the message since).
+func (r *Message) VerifPoison() {
+	r.msg.MessageID = -0x5EED
+	r.msg.Code = 0xEE
+	r.sequence = 0x5EED5EED
+}
+
+func (r *Message) VerifPoisoned() bool {
+	return r.msg.MessageID == -0x5EED && r.msg.Code == 0xEE && r.sequence == 0x5EED5EED &&
+		r.msg.Token == nil && len(r.msg.Options) == 0 && r.msg.Payload == nil && r.body == nil && !r.isModified
+}
+
+// VerifUnpoison restores the header fields Reset leaves behind.
+func (r *Message) VerifUnpoison() {
+	r.msg.MessageID = -1
+	r.msg.Code = 0
+	r.sequence = 0
+}
